@@ -6,6 +6,7 @@
    Geometry in Q.  Definitions only. *)
 From DF Require Import Prelude Constants_gen Region Mesh.
 Open Scope Q_scope.
+Set Implicit Arguments.
 
 Notation zidx := (list Z).
 
